@@ -39,6 +39,11 @@ import (
 
 	ouroboros "github.com/blinklabs-io/gouroboros"
 	"github.com/blinklabs-io/gouroboros/protocol"
+	"github.com/blinklabs-io/gouroboros/protocol/blockfetch"
+	"github.com/blinklabs-io/gouroboros/protocol/chainsync"
+	"github.com/blinklabs-io/gouroboros/protocol/keepalive"
+	pcommon "github.com/blinklabs-io/gouroboros/protocol/common"
+	"github.com/blinklabs-io/gouroboros/protocol/txsubmission"
 	rt "github.com/blinklabs-io/gouroboros/verifrt"
 	vtime "github.com/blinklabs-io/gouroboros/verifrt/vtime"
 	"verif/e1/e1lib"
@@ -76,6 +81,8 @@ type mini struct {
 	name string
 	id   uint16
 	req  []byte // first legal client message
+	done []byte // the client's Done message where it is legal in the initial state (nil otherwise)
+	resp []byte // the first server message that is legal after req
 	// enabled reports whether version flags enable the protocol
 	enabled func(pv protocol.ProtocolVersion) bool
 }
@@ -130,7 +137,35 @@ func minis(f family) []mini {
 		if req == nil {
 			panic("no first message for " + x.fam)
 		}
-		out = append(out, mini{name: strings.SplitN(x.fam, "/", 2)[0], id: p.Config.ProtocolId, req: req, enabled: x.enabled})
+		var done []byte
+		for _, m := range p.Alphabet {
+			if m.Unknown || !m.FromClient || done != nil || !strings.Contains(m.Label, "Done") {
+				continue
+			}
+			if _, _, err := p.Step(p.Initial(), m.Msg); err == nil {
+				done, _ = protos.Encode(m.Msg)
+			}
+		}
+		var resp []byte
+		for _, m := range p.Alphabet {
+			if m.Unknown || !m.FromClient || resp != nil {
+				continue
+			}
+			if s1, _, err := p.Step(p.Initial(), m.Msg); err == nil {
+				if b, _ := protos.Encode(m.Msg); string(b) != string(req) {
+					continue
+				}
+				for _, r := range p.Alphabet {
+					if r.Unknown || r.FromClient || resp != nil {
+						continue
+					}
+					if _, _, err := p.Step(s1, r.Msg); err == nil {
+						resp, _ = protos.Encode(r.Msg)
+					}
+				}
+			}
+		}
+		out = append(out, mini{name: strings.SplitN(x.fam, "/", 2)[0], id: p.Config.ProtocolId, req: req, done: done, resp: resp, enabled: x.enabled})
 	}
 	return out
 }
@@ -147,6 +182,14 @@ type kase struct {
 	probeID  uint16
 	payload  []byte
 	response bool // probe direction: towards a local initiator
+	// seq: a multi-step sequence on a full-duplex connection before the probe is sent:
+	//  "stop-client": the local client role of the probed protocol is stopped, then the peer
+	//                 sends the request probe to the still-running local server role;
+	//  "stop-server": the local server role is stopped, then the response-direction probe;
+	//  "peer-done":   the peer's client sends Done (the local server role finishes / restarts),
+	//                 then the response-direction probe to the still-running local client role.
+	seq  string
+	done []byte
 }
 
 func (k kase) String() string {
@@ -157,7 +200,11 @@ func (k kase) String() string {
 	if k.response {
 		dir = "response"
 	}
-	return fmt.Sprintf("%s %s lfd=%v pfd=%v keepalive=%v v=%d probe=%s(%d)/%s", famNames[k.fam], role, k.lfd, k.pfd, k.ka, k.v, k.probe, k.probeID, dir)
+	seq := ""
+	if k.seq != "" {
+		seq = " after " + k.seq
+	}
+	return fmt.Sprintf("%s %s lfd=%v pfd=%v keepalive=%v v=%d probe=%s(%d)/%s%s", famNames[k.fam], role, k.lfd, k.pfd, k.ka, k.v, k.probe, k.probeID, dir, seq)
 }
 
 // the peer's version data for version v (shape by the specification)
@@ -247,6 +294,29 @@ func instances(c *ouroboros.Connection) []inst {
 	return out
 }
 
+// stopInstance stops one role of one mini-protocol the way an application does: through
+// the client object's Stop where it has one, otherwise through the protocol's Stop.
+func stopInstance(c *ouroboros.Connection, name string, client bool) {
+	if client {
+		switch name {
+		case "chain-sync":
+			_ = c.ChainSync().Client.Stop()
+			return
+		case "block-fetch":
+			_ = c.BlockFetch().Client.Stop()
+			return
+		case "tx-submission":
+			_ = c.TxSubmission().Client.Stop()
+			return
+		}
+	}
+	for _, in := range instances(c) {
+		if in.name == name && in.client == client {
+			in.p.Stop()
+		}
+	}
+}
+
 func roleName(client bool) string {
 	if client {
 		return "client"
@@ -290,7 +360,9 @@ func runCase(i int, k kase) {
 					acc := space.A(space.U(1), space.U(uint64(k.v)), peerData(k.fam, k.v, k.pfd)).Encode()
 					_, _ = b.Write(s2lib.Segment(0, true, acc))
 				}
-				_, _ = b.Write(probe)
+				if k.seq == "" {
+					_, _ = b.Write(probe)
+				}
 				return
 			}
 			dir := "request"
@@ -316,6 +388,20 @@ func runCase(i int, k kase) {
 		opts = append(opts, ouroboros.WithNodeToNode(true))
 	case famDMQ:
 		opts = append(opts, ouroboros.WithDMQ(true))
+	}
+	if k.seq != "" {
+		// servers that can take the first request without a "no callback" error
+		bfCfg, _ := blockfetch.NewConfig(blockfetch.WithRequestRangeFunc(func(blockfetch.CallbackContext, pcommon.Point, pcommon.Point) error { return nil }))
+		opts = append(opts,
+			ouroboros.WithChainSyncConfig(chainsync.NewConfig(
+				chainsync.WithFindIntersectFunc(func(_ chainsync.CallbackContext, pts []pcommon.Point) (pcommon.Point, chainsync.Tip, error) {
+					t := chainsync.Tip{Point: pcommon.NewPoint(1234, []byte{0xde, 0xad, 0xbe, 0xef}), BlockNumber: 42}
+					return t.Point, t, nil
+				}),
+				chainsync.WithRequestNextFunc(func(chainsync.CallbackContext) error { return nil }))),
+			ouroboros.WithBlockFetchConfig(bfCfg),
+			ouroboros.WithKeepAliveConfig(keepalive.NewConfig(keepalive.WithCookie(4711))),
+			ouroboros.WithTxSubmissionConfig(txsubmission.NewConfig(txsubmission.WithInitFunc(func(txsubmission.CallbackContext) error { return nil }))))
 	}
 	c, err := ouroboros.NewConnection(opts...)
 	if err != nil {
@@ -343,6 +429,20 @@ func runCase(i int, k kase) {
 		rt.Log("case %d errorchan-closed", i)
 		rt.Close("h:errsDone", errsDone)
 	})
+	if k.seq != "" {
+		vtime.Sleep(10 * time.Millisecond)
+		switch k.seq {
+		case "stop-client":
+			stopInstance(c, k.probe, true)
+		case "stop-server":
+			stopInstance(c, k.probe, false)
+		case "peer-done":
+			_, _ = b.Write(s2lib.Segment(k.probeID, false, k.done))
+		}
+		vtime.Sleep(20 * time.Millisecond)
+		rt.Log("case %d stepped %s", i, snapshot(c))
+		_, _ = b.Write(probe)
+	}
 	vtime.Sleep(50 * time.Millisecond)
 	rt.Log("case %d quiet %s", i, snapshot(c))
 	_ = c.Close()
@@ -429,7 +529,7 @@ func judge(k kase, ev []string, add func(key, what string)) {
 	duplex := k.fam == famNtN && k.lfd && k.pfd && pv.EnableFullDuplex
 	initiator := !k.server || duplex
 	responder := k.server || duplex
-	var up, started, quiet string
+	var up, started, quiet, stepped string
 	var errsBefore, wire []string
 	closedBefore, sawQuiet := false, false
 	for _, l := range ev {
@@ -438,6 +538,8 @@ func judge(k kase, ev []string, add func(key, what string)) {
 			up = l[3:]
 		case strings.HasPrefix(l, "started"):
 			started = strings.TrimSpace(l[7:])
+		case strings.HasPrefix(l, "stepped"):
+			stepped = strings.TrimSpace(l[7:])
 		case strings.HasPrefix(l, "quiet"):
 			quiet, sawQuiet = strings.TrimSpace(l[5:]), true
 		case strings.HasPrefix(l, "error "):
@@ -505,10 +607,21 @@ func judge(k kase, ev []string, add func(key, what string)) {
 	}
 	// which instances moved
 	var moved []string
+	before := map[string]string{} // sequences: the states after the step, before the probe
+	for _, f := range strings.Fields(stepped) {
+		nv := strings.SplitN(f, "=", 2)
+		before[nv[0]] = nv[1]
+	}
 	for _, f := range strings.Fields(quiet) {
 		nv := strings.SplitN(f, "=", 2)
 		if k.ka && nv[0] == "keep-alive/client" {
 			continue // WithKeepAlive: this client sends on its own and leaves its initial state by itself
+		}
+		if k.seq != "" {
+			if before[nv[0]] != nv[1] {
+				moved = append(moved, f)
+			}
+			continue
 		}
 		if nv[1] != "initial" && nv[1] != "-" {
 			moved = append(moved, f)
@@ -565,6 +678,16 @@ func judge(k kase, ev []string, add func(key, what string)) {
 		}
 		if !reached {
 			add("c17:enabled-responder-not-reached", fmt.Sprintf("%s: quiet {%s} wire %v errors %v", id, quiet, wire, errsBefore))
+		}
+	}
+	if k.seq != "" {
+		// stopping / finishing ONE role of a mini-protocol must leave the other role of the same
+		// protocol id running and reachable: no error, the connection stays up (the servers of
+		// chain-sync, block-fetch, tx-submission and keep-alive take their first request
+		// without a callback error in these cases)
+		configured := map[string]bool{"chain-sync": true, "block-fetch": true, "tx-submission": true, "keep-alive": true}
+		if (k.response || configured[k.probe]) && (len(errsBefore) > 0 || closedBefore) {
+			add("c17:other-role-lost-after-one-role-stopped", fmt.Sprintf("%s: errors %v, closed by itself %v; after the step {%s}; at the end {%s}", id, errsBefore, closedBefore, stepped, quiet))
 		}
 	}
 }
@@ -655,6 +778,42 @@ func gen(thorough bool) []e1lib.Scenario {
 			}
 		}
 	}
+	// sequences on negotiated full-duplex node-to-node connections (both roles of every
+	// protocol id registered): one role of a protocol goes away, then the other is probed
+	{
+		ms := minis(famNtN)
+		for _, server := range bools {
+			for _, v := range versions(famNtN, thorough) {
+				pv := protocol.GetProtocolVersion(v)
+				if !pv.EnableFullDuplex {
+					continue
+				}
+				for _, m := range ms {
+					if !m.enabled(pv) {
+						continue
+					}
+					base := kase{fam: famNtN, server: server, lfd: true, pfd: true, ka: m.name == "keep-alive", v: v, probe: m.name, probeID: m.id, payload: m.req, done: m.done}
+					for _, seq := range []string{"stop-client", "stop-server", "peer-done"} {
+						k := base
+						k.seq = seq
+						k.response = seq != "stop-client"
+						if k.response && m.name == "keep-alive" {
+							// WithKeepAlive: the local client has sent KeepAlive(4711) and awaits
+							// the reply, so the response-direction probe is that reply
+							if m.resp == nil {
+								panic("no keep-alive response in the catalogue")
+							}
+							k.payload = m.resp
+						}
+						if seq == "peer-done" && m.done == nil {
+							continue
+						}
+						add("seq|ntn|"+roleName(!server), k)
+					}
+				}
+			}
+		}
+	}
 	var scs []e1lib.Scenario
 	for _, name := range order {
 		s := scenario(name, groups[name], true)
@@ -707,6 +866,15 @@ func gen(thorough bool) []e1lib.Scenario {
 			s.MinB, s.Budget = 0, 45*time.Second
 		}
 		scs = append(scs, s)
+	}
+	if thorough {
+		for _, k := range groups["seq|ntn|client"] {
+			if k.v == ntnTop && k.probe == "chain-sync" && k.seq == "stop-client" {
+				s := scenario(fmt.Sprintf("sched|seq|ntn|client|v=%d|chain-sync/stop-client", k.v), []kase{k}, false)
+				s.MinB, s.MaxB, s.Budget = 1, 1, 900*time.Second
+				scs = append(scs, s)
+			}
+		}
 	}
 	return scs
 }
